@@ -7,7 +7,7 @@ use crate::model::calendar as cal;
 use crate::model::fmt_spec::Kind;
 use crate::model::instant::*;
 use crate::model::pattern_gen::{self, PatInfo, ValueFacts};
-use astrolabe::{Date, DateTime, DateUtilities, Offset, OffsetUtilities, Time, TimeUtilities};
+use astrolabe::{Date, DateTime, DateUtilities, Offset, Time, TimeUtilities};
 use serde_json::{json, Value};
 
 fn kind_name(k: Kind) -> &'static str {
